@@ -6,8 +6,8 @@ import (
 
 	"github.com/cosmos/cosmos-sdk/types/query"
 	aoltypes "github.com/medibloc/panacea-core/v2/x/aol/types"
-	pnfttypes "github.com/medibloc/panacea-core/v2/x/pnft/types"
 	didtypes "github.com/medibloc/panacea-core/v2/x/did/types"
+	pnfttypes "github.com/medibloc/panacea-core/v2/x/pnft/types"
 
 	"verifharness/simnet"
 )
